@@ -25,36 +25,91 @@ func init() {
 	specialChecks["C13"] = checkC13
 }
 
-// thread-safe, log-free providers (the harness itself must be race-free)
+// traffic: what an evaluator asked of its providers and said to its logger, as a multiset (the
+// calls of concurrent evaluations interleave, so order means nothing; how often each call was
+// made does: a membership remembered across calls, or a log line lost, changes the counts).
+type traffic struct {
+	mu sync.Mutex
+	n  map[string]int
+}
+
+func newTraffic() *traffic { return &traffic{n: map[string]int{}} }
+
+func (t *traffic) add(what string) {
+	t.mu.Lock()
+	t.n[what]++
+	t.mu.Unlock()
+}
+
+func (t *traffic) snapshot() map[string]int {
+	t.mu.Lock()
+	defer t.mu.Unlock()
+	out := make(map[string]int, len(t.n))
+	for k, v := range t.n {
+		out[k] = v
+	}
+	return out
+}
+
+// trafficDiff: a - b as a multiset (entries with a zero difference dropped)
+func trafficDiff(a, b map[string]int) map[string]int {
+	out := map[string]int{}
+	for k, v := range a {
+		if d := v - b[k]; d != 0 {
+			out[k] = d
+		}
+	}
+	for k, v := range b {
+		if _, ok := a[k]; !ok && v != 0 {
+			out[k] = -v
+		}
+	}
+	return out
+}
+
+// thread-safe providers (the harness itself must be race-free)
 type pureStore struct {
 	flags    map[string]*ldmodel.FeatureFlag
 	segments map[string]*ldmodel.Segment
+	tr       *traffic
 }
 
-func (s *pureStore) GetFeatureFlag(k string) *ldmodel.FeatureFlag { return s.flags[k] }
-func (s *pureStore) GetSegment(k string) *ldmodel.Segment         { return s.segments[k] }
+func (s *pureStore) GetFeatureFlag(k string) *ldmodel.FeatureFlag {
+	s.tr.add("flag " + k)
+	return s.flags[k]
+}
+func (s *pureStore) GetSegment(k string) *ldmodel.Segment {
+	s.tr.add("segment " + k)
+	return s.segments[k]
+}
 
-type pureMembership map[string]bool
+type pureMembership struct {
+	key string
+	m   map[string]bool
+	tr  *traffic
+}
 
-func (m pureMembership) CheckMembership(ref string) ldvalue.OptionalBool {
-	if b, ok := m[ref]; ok {
+func (m *pureMembership) CheckMembership(ref string) ldvalue.OptionalBool {
+	m.tr.add("check " + m.key + " / " + ref)
+	if b, ok := m.m[ref]; ok {
 		return ldvalue.NewOptionalBool(b)
 	}
 	return ldvalue.OptionalBool{}
 }
 
+type pureAnswer struct {
+	m  map[string]bool // nil: no membership object
+	st string
+}
+
 type pureBS struct {
-	table map[string]struct {
-		m  pureMembership
-		st string
-	}
-	dflt struct {
-		m  pureMembership
-		st string
-	}
+	table map[string]pureAnswer
+	dflt  pureAnswer
+	tr    *traffic
 }
 
 func (p *pureBS) GetMembership(key string) (evaluation.BigSegmentMembership, ldreason.BigSegmentsStatus) {
+	p.tr.add("membership " + key)
 	e, ok := p.table[key]
 	if !ok {
 		e = p.dflt
@@ -62,50 +117,38 @@ func (p *pureBS) GetMembership(key string) (evaluation.BigSegmentMembership, ldr
 	if e.m == nil {
 		return nil, ldreason.BigSegmentsStatus(e.st)
 	}
-	return e.m, ldreason.BigSegmentsStatus(e.st)
+	return &pureMembership{key: key, m: e.m, tr: p.tr}, ldreason.BigSegmentsStatus(e.st)
 }
 
-func mkPureBS(w *WBS) *pureBS {
-	p := &pureBS{table: map[string]struct {
-		m  pureMembership
-		st string
-	}{}}
-	conv := func(a WBSAnswer) (pureMembership, string) {
+func mkPureBS(w *WBS, tr *traffic) *pureBS {
+	p := &pureBS{table: map[string]pureAnswer{}, tr: tr}
+	conv := func(a WBSAnswer) pureAnswer {
 		if a.M == nil {
-			return nil, a.St
+			return pureAnswer{nil, a.St}
 		}
-		m := pureMembership{}
+		m := map[string]bool{}
 		for _, x := range a.M {
 			if _, dup := m[x.Ref]; !dup {
 				m[x.Ref] = x.In
 			}
 		}
-		return m, a.St
+		return pureAnswer{m, a.St}
 	}
 	for _, e := range w.Table {
 		if _, dup := p.table[e.Key]; dup {
 			continue
 		}
-		m, st := conv(e.A)
-		p.table[e.Key] = struct {
-			m  pureMembership
-			st string
-		}{m, st}
+		p.table[e.Key] = conv(e.A)
 	}
-	p.dflt.m, p.dflt.st = conv(w.Dflt)
+	p.dflt = conv(w.Dflt)
 	return p
 }
 
-type lockedLogger struct {
-	mu sync.Mutex
-	n  int
-}
+type lockedLogger struct{ tr *traffic }
 
-func (l *lockedLogger) Println(values ...interface{}) { l.mu.Lock(); l.n++; l.mu.Unlock() }
+func (l *lockedLogger) Println(values ...interface{}) { l.tr.add("log " + fmt.Sprintln(values...)) }
 func (l *lockedLogger) Printf(format string, values ...interface{}) {
-	l.mu.Lock()
-	l.n++
-	l.mu.Unlock()
+	l.tr.add("log " + fmt.Sprintf(format, values...))
 }
 
 type concPair struct {
@@ -147,14 +190,15 @@ func concWorkerMain(args []string) {
 		// Two independent builds of the same configuration: the sequential baseline runs on one,
 		// the goroutines on the other, so that nothing the library might cache lazily on shared
 		// values is already warm when the concurrent phase starts.
-		mk := func() (evaluation.Evaluator, []concPair) {
+		mk := func() (evaluation.Evaluator, []concPair, *traffic) {
 			st := buildStore(&c.Store)
-			ps := &pureStore{flags: st.flags, segments: st.segments}
+			tr := newTraffic()
+			ps := &pureStore{flags: st.flags, segments: st.segments, tr: tr}
 			var options []evaluation.EvaluatorOption
 			if c.BS != nil {
-				options = append(options, evaluation.EvaluatorOptionBigSegmentProvider(mkPureBS(c.BS)))
+				options = append(options, evaluation.EvaluatorOptionBigSegmentProvider(mkPureBS(c.BS, tr)))
 			}
-			options = append(options, evaluation.EvaluatorOptionErrorLogger(&lockedLogger{}), evaluation.EvaluatorOptionEnableSecondaryKey(c.Opts.Sec))
+			options = append(options, evaluation.EvaluatorOptionErrorLogger(&lockedLogger{tr}), evaluation.EvaluatorOptionEnableSecondaryKey(c.Opts.Sec))
 			e := evaluation.NewEvaluatorWithOptions(ps, options...)
 			flags := []*ldmodel.FeatureFlag{c.Flag.build()}
 			keys := []string{}
@@ -178,13 +222,16 @@ func concWorkerMain(args []string) {
 					prs = append(prs, concPair{f, cx})
 				}
 			}
-			return e, prs
+			return e, prs, tr
 		}
-		evSeq, pairsSeq := mk()
-		ev, pairs := mk()
+		evSeq, pairsSeq, trSeq := mk()
+		ev, pairs, trConc := mk()
 		baseline := make([]string, len(pairs))
+		baseTraffic := make([]map[string]int, len(pairs))
 		for i, p := range pairsSeq {
+			before := trSeq.snapshot()
 			baseline[i] = evalPair(evSeq, p)
+			baseTraffic[i] = trafficDiff(trSeq.snapshot(), before)
 		}
 		seen := map[string]bool{}
 		for _, b := range baseline {
@@ -195,6 +242,7 @@ func concWorkerMain(args []string) {
 		var wg sync.WaitGroup
 		var mu sync.Mutex
 		mismatch := ""
+		done := make([]int, len(pairs)) // how often each pair was evaluated concurrently
 		for gi := 0; gi < nG; gi++ {
 			wg.Add(1)
 			gr := r.fork()
@@ -210,6 +258,9 @@ func concWorkerMain(args []string) {
 				for it := 0; it < 60; it++ {
 					i := gr.intn(len(pairs))
 					got := evalPair(ev, pairs[i])
+					mu.Lock()
+					done[i]++
+					mu.Unlock()
 					if got != baseline[i] {
 						mu.Lock()
 						mismatch = fmt.Sprintf("pair %d: concurrent %s vs sequential %s", i, got, baseline[i])
@@ -221,6 +272,20 @@ func concWorkerMain(args []string) {
 		}
 		wg.Wait()
 		evals += nG * 60
+		if mismatch == "" {
+			// provider calls and log lines of all concurrent evaluations together: exactly those
+			// of the same evaluations made one after the other
+			expected := map[string]int{}
+			for i, n := range done {
+				for k, v := range baseTraffic[i] {
+					expected[k] += n * v
+				}
+			}
+			if d := trafficDiff(trConc.snapshot(), expected); len(d) > 0 {
+				dj, _ := json.Marshal(d)
+				mismatch = fmt.Sprintf("provider calls and log lines of the concurrent evaluations differ from those of the same evaluations in sequence (surplus/deficit per call): %s", dj)
+			}
+		}
 		if mismatch != "" {
 			cj, _ := json.Marshal(c)
 			fmt.Printf("MISMATCH round=%d %s CASE=%s\n", round, mismatch, cj)
@@ -327,6 +392,13 @@ func checkC13(seed uint64, replayDir, corpusDir string) (map[string]any, int) {
 		} else {
 			fatalf("race detector fired outside the library (harness bug): %s", short)
 		}
+	} else if err != nil && (libraryCrash(stderr.String()) || strings.Contains(stderr.String(), "fatal error: concurrent map")) {
+		// a Go runtime fatal error (concurrent map access, …) with the library on the stack
+		rep := stderr.String()
+		if len(rep) > 3000 {
+			rep = rep[:3000]
+		}
+		t.violation("crash", "the process died during concurrent evaluations", map[string]any{"report": rep, "seed": seed})
 	} else if err != nil && t.evaluations == 0 {
 		fatalf("concurrency worker failed: %v %s", err, stderr.String())
 	}
